@@ -33,7 +33,9 @@ Templates ==
      \* (patch_keys_ed: keys of the Ed25519 suites, given as JWK and as base58)
      PatchFromBytes      |-> {"patch_keys", "patch_jsonpatch", "patch_replace"},
      Validate            |-> {"patch_keys", "patch_keys_ed", "patch_services", "patch_services_objects", "patch_jsonpatch", "patch_replace", "patch_aka", "patch_remove_keys"},
-     ApplyPatches        |-> {"patch_keys", "patch_keys_ed", "patch_services", "patch_services_objects", "patch_jsonpatch", "patch_jsonpatch_array", "patch_replace", "patch_aka",
+     \* (patch_jsonpatch_protected: replace operations that point into keys and services - refused by validation,
+     \* which a direct caller of the composer does not have to use)
+     ApplyPatches        |-> {"patch_jsonpatch_protected", "patch_keys", "patch_keys_ed", "patch_services", "patch_services_objects", "patch_jsonpatch", "patch_jsonpatch_array", "patch_replace", "patch_aka",
                               "patch_remove_keys", "patch_remove_services", "patch_remove_aka", "document"},
      \* (*_object_origin: the anchor origin is a JSON object, not a string)
      Apply               |-> {"create", "update", "recover", "deactivate", "update_disabled", "create_disabled", "recover_object_origin", "create_object_origin"},
